@@ -186,13 +186,26 @@ func (env *ExecEnv) expand(word ast.Word, mode ExpMode) (fields []*field, err er
 	return
 }
 
-// lits reports whether both a and b are literals. Two literals in a row
-// are always apart in the source, even when the positions cannot tell
-// (alias substitution).
+// lits reports whether a and b, two parts in a row of an arithmetic
+// expression, are apart in the source even when the positions cannot tell
+// (alias substitution): written without a blank between them they would
+// have been scanned as something else.
 func lits(a, b ast.WordPart) bool {
-	_, ok1 := a.(*ast.Lit)
-	_, ok2 := b.(*ast.Lit)
-	return ok1 && ok2
+	switch a := a.(type) {
+	case *ast.Lit:
+		if _, ok := b.(*ast.Lit); ok {
+			return true
+		}
+		// "$" would swallow what follows
+		return strings.HasSuffix(a.Value, "$")
+	case *ast.ParamExp:
+		// "$name" would go on in a literal which starts like a name
+		if b, ok := b.(*ast.Lit); ok && !a.Braces && a.Name != nil {
+			r, _ := utf8.DecodeRuneInString(b.Value)
+			return r == '_' || unicode.IsLetter(r) || unicode.IsDigit(r)
+		}
+	}
+	return false
 }
 
 // isAt reports whether the word consists only of $@.
